@@ -56,10 +56,10 @@ def gen_inputs(tier, rng):
     descs = []
     if tier == "quick":
         for _ in range(150):
-            descs.append({"kind": "random", "pseed": rng.randint(0, 10 ** 9), "len": rng.randint(8, 25)})
+            descs.append({"kind": "random", "pseed": rng.randint(0, 10 ** 9), "len": rng.randint(8, 25), "plant": rng.random() < 0.1})
     else:
         for _ in range(1500):
-            descs.append({"kind": "random", "pseed": rng.randint(0, 10 ** 9), "len": rng.randint(10, 60)})
+            descs.append({"kind": "random", "pseed": rng.randint(0, 10 ** 9), "len": rng.randint(10, 60), "plant": rng.random() < 0.1})
         for n in range(1, 4):
             for word in itertools.product(ALPHA, repeat=n):
                 descs.append({"kind": "word", "word": list(word)})
@@ -98,7 +98,8 @@ def random_ops(desc, W):
     sess_root = ["A", "B"]
     groups = {}          # handle -> cell group id (shallow copies share)
     copies = {}          # group -> number of handles
-    planted = False
+    planted = not desc.get("plant", False)
+    shared = set()       # handles that are or were in a cell with shallow copies: pickling them recurses
 
     def new_group(h):
         g = len(groups) + 1000 * len(copies)
@@ -130,6 +131,10 @@ def random_ops(desc, W):
         if n == 0:
             return None
         cands = list(range(max(0, n - 4), n)) if rng.random() < 0.7 else list(range(n))
+        if pred is sp_safe:      # never change the state point through a copy of a moved handle (see ASSUMPTIONS)
+            cands = [i for i in cands if i not in orphaned] or [i for i in range(n) if i not in orphaned]
+            if not cands:
+                return None
         if pred is not None and rng.random() < 0.92:
             good = [i for i in cands if pred(i)] or [i for i in range(n) if pred(i)]
             if good:
@@ -232,10 +237,11 @@ def random_ops(desc, W):
                     g = groups[h]
                 groups[before] = g
                 copies[g] = copies.get(g, 0) + 1
+                shared.update(i for i, gg in groups.items() if gg == g)
         elif r < 0.87:
             before = len(W.handles)
             ns = len(W.sessions)
-            if rng.random() < 0.5 or copies.get(groups.get(h), 1) > 1:
+            if rng.random() < 0.5 or h in shared:
                 yield ["DeepCopy", h]
             else:
                 yield ["Pickle", h]
@@ -261,10 +267,10 @@ def random_ops(desc, W):
                 yield ["OpenId", s, "".join(rng.choice(HEX) for _ in range(32))]
             if len(W.handles) > before:
                 new_group(before)
-        elif r < 0.985:
+        elif r < 0.985 or planted or _ < desc["len"] - 3:
             yield rng.choice([["Ids", rng.randrange(len(sess_root))], ["Len", rng.randrange(len(sess_root))],
                               ["Contains", rng.randrange(len(sess_root)), h], ["Sp", h]])
-        elif not planted:
+        elif not planted and _ >= desc["len"] - 3:
             planted = True
             ws = W.sessions[0].workspace
             present = sorted(d for d in os.listdir(ws) if len(d) == 32)
